@@ -657,7 +657,7 @@ type ContractFile struct {
 var clauseKeywords = map[string]bool{
 	"requires": true, "ensures": true, "assigns": true, "loop": true, "arith": true, "strings": true,
 	"may_panic": true, "check": true, "assumed": true, "effect": true, "ghostparam": true, "nocheck": true,
-	"pure": true, "inline": true, "reveal": true, "always": true, "bind": true, "let": true, "mode": true, "callsite": true, "unrollall": true, "fresh": true,
+	"pure": true, "inline": true, "reveal": true, "always": true, "recv_assigns": true, "recv_ensures": true, "bind": true, "let": true, "mode": true, "callsite": true, "unrollall": true, "fresh": true,
 }
 var topKeywords = map[string]bool{
 	"func": true, "spec": true, "axiom": true, "lemma": true, "invariant": true, "monitor": true, "smt": true, "ghost": true, "bvtype": true, "bvtypes": true, "const": true,
@@ -883,6 +883,16 @@ func parseContractLines(pkg, path string, lines []string, linenos []int) (*Contr
 				}
 				cur.Clauses = append(cur.Clauses, cl)
 			case "always":
+				e, err := parseExpr(rest)
+				if err != nil {
+					return nil, fail(err)
+				}
+				cur.Clauses = append(cur.Clauses, &Clause{Kind: w, Text: rest, E: e, Line: where})
+			case "recv_assigns":
+				for _, part := range splitTop(rest, ',') {
+					cur.Clauses = append(cur.Clauses, &Clause{Kind: w, Text: strings.TrimSpace(part), Line: where})
+				}
+			case "recv_ensures":
 				e, err := parseExpr(rest)
 				if err != nil {
 					return nil, fail(err)
